@@ -204,10 +204,12 @@ def run_trees(k, n, maxops, tier):
         if bodies.count_ops(t) >= 3:
             variants = [dict(continuation=True)]
         else:
-            variants = [dict(continuation=False), dict(continuation=True)]
+            variants = [dict(continuation=False), dict(continuation=True), dict(continuation=True, one_unit=True)]
         for vi, var in enumerate(variants):
             case = treecheck.tree_case(t, **var)
             res = case.run()
+            if var.get('one_unit') and res['status'] == 'violation':
+                res['sig'] = 'leaves-in-the-same-unit-plus-dynamic-facts:' + res['sig']
             account(acc, (0, idx, vi), case, res, key='%s %r' % (bodies.show_tree(t), sorted(var.items())))
             if res['status'] == 'ok' and len(acc.samples) < 2 and res['nontrivial'] and bodies.count_ops(t) == maxops:
                 acc.sample({'tree': bodies.show_tree(t), 'variant': var,
